@@ -1,3 +1,4 @@
 pub mod family;
 pub mod msg;
 pub mod poly;
+pub mod inst;
